@@ -101,3 +101,11 @@ Lemma var_cancel_skeleton_tie : defaultVarMocker_Cancel_skeleton =
    "  m.saved = false";
    "m.canceled = true"].
 Proof. reflexivity. Qed.
+
+(* C08, by-name addressing (ue_var.go) as Model/VarLayout.set_by_name transcribes it: the type written at the address is
+   the type of the VALUE (its dynamic type), nothing else is known about the variable *)
+Lemma uevar_set_skeleton_tie : unExportedVarMocker_set_skeleton =
+  ["m.typ = reflect.TypeOf(value)";
+   "m.targetValue = reflect.NewAt(m.typ, m.target)";
+   "m.defaultVarMocker.doSet(value)"].
+Proof. reflexivity. Qed.
